@@ -7,6 +7,7 @@
   HTTP basic-auth and SMTP credentials of notifier modules).
 -/
 import BurrowVerif.Proofs.HttpSecrets
+import BurrowVerif.Proofs.HttpViperSound
 import BurrowVerif.Generated.Http
 
 namespace Burrow.Props.C18
@@ -37,6 +38,27 @@ theorem responses_independent_of_passwords_partial {W : Type} (be : Backend W) (
   | options _ => rfl
   | notAllowed _ => rfl
   | notFound => rfl
+
+/-- every key suffix a handler reads through viper: the field tables and the client-profile / TLS / SASL
+    sub-objects -/
+def keyedSuffixes : List String :=
+  (storageFields ++ evaluatorFields ++ clusterFields ++ consumerFields ++ notifierHTTP ++ notifierSlack ++ notifierEmail).map (·.2.1) ++
+  ["client-profile", "class-name", "tls", "sasl", "client-id", "kafka-version", "certfile", "keyfile", "cafile", "noverify",
+   "handshake-first", "username"]
+
+/-- **For EVERY configuration — dotted module and profile names included — no setting that a handler
+    reads by key ever resolves to a password**: viper's resolution (modelled exactly, `Cfg.search`) takes
+    a key only to a node whose raw keys, joined by dots, spell the key (`resolve_sound`), and none of
+    the suffixes the handlers ask for is "password" or contains a dot.  (What remains outside this
+    general statement is the VALUES of table-valued reads: the extras of a notifier, read from the
+    module's own table since the repair of D20 and compared entry by entry in the differential run.) -/
+theorem no_keyed_read_lands_on_a_password (c : Cfg) (root : List String) (hroot : root ≠ []) (suffix : String)
+    (hs : suffix ∈ keyedSuffixes) (R : List String) (h : c.resolve (root ++ [suffix]) = some R) :
+    R.getLast? ≠ some "password" := by
+  have hall : (keyedSuffixes.all fun s => s != "password" && !s.toList.contains '.') = true := by decide
+  have := List.all_eq_true.mp hall suffix hs
+  simp only [Bool.and_eq_true, bne_iff_ne, ne_eq, Bool.not_eq_true', List.contains_eq_mem, decide_eq_false_iff_not] at this
+  exact resolve_avoids_password c root suffix hroot this.1 this.2 R h
 
 /-- the configuration of the finding D20: notifier modules `a` and `"a.extras"`; the second one's
     password is the parameter -/
